@@ -18,18 +18,21 @@ namespace SurfProofs.C16
 open SurfModel.IOQueue SurfModel.PollWrite SurfProofs.C16Spec
 
 /-- **C16_queue.** After any interleaving of write / flush / read / consume / consume_with / clear_but_last on
-the byte queue: no call panicked; every `read`/`consume` so far took a prefix of the then-readable bytes
-(`Accepts`); `len()` is exactly the number of readable bytes; `is_empty()` implies nothing is readable; the
-readable bytes are what reading chunk by chunk returns; and each further call acts on the readable bytes as a
-FIFO: `write` appends, `read` returns a prefix of at most `n` bytes (exactly the front slice cut to `n`) and
-leaves the rest, `consume` removes a prefix, `flush` changes nothing, `clear_but_last` keeps a prefix.
+the byte queue (total number of bytes written within `usize`; call arguments are arbitrary, `usize::MAX`
+included): no call panicked — no slice index out of range, no `usize` overflow or underflow; every
+`read`/`consume` so far took a prefix of the then-readable bytes (`Accepts`); `len()` is exactly the number of
+readable bytes; `is_empty()` implies nothing is readable; the readable bytes are what reading chunk by chunk
+returns; and each further call acts on the readable bytes as a FIFO: `write` appends, `read` returns a prefix
+of at most `n` bytes (exactly the front slice cut to `n`) and leaves the rest, `consume n` removes a prefix for
+*every* `n`, `flush` changes nothing, `clear_but_last` keeps a prefix.
 Without drops, what was taken followed by what is readable is exactly what was written. -/
-theorem C16_queue (ops : List Op) :
+theorem C16_queue (ops : List Op) (hfit : (opsWritten ops).length ≤ usizeMax) :
     ∃ q evs, Q.new.run? ops = some (q, evs) ∧ Spec.init.Accepts evs ∧
       q.len = (abs q).length ∧
       (q.isEmpty = true → abs q = []) ∧
       drain? q.chunksCount q = some (abs q) ∧
-      (∀ b, abs (q.write b) = abs q ++ b ∧ (q.write b).len = q.len + b.length) ∧
+      (∀ b, (opsWritten ops).length + b.length ≤ usizeMax →
+        ∃ q', q.write? b = some q' ∧ abs q' = abs q ++ b ∧ q'.len = q.len + b.length) ∧
       (∀ n, ∃ sl out q', q.asSlice? = some sl ∧ q.read? n = some (out, q') ∧ out = sl.take n ∧
         out.length ≤ n ∧ abs q = out ++ abs q' ∧ q'.len = (abs q').length) ∧
       (∀ n, ∃ q' k, q.consume? n = some q' ∧ k ≤ n ∧ abs q' = (abs q).drop k ∧ q'.len = (abs q').length) ∧
@@ -37,18 +40,24 @@ theorem C16_queue (ops : List Op) :
       (∃ q', q.clearButLast? = some q' ∧ abs q' <+: abs q ∧ q'.len = (abs q').length) ∧
       (taken evs ++ abs q).Sublist (written evs) ∧
       (noDrop evs → taken evs ++ abs q = written evs) := by
-  obtain ⟨q, evs, hrun, hacc, hR⟩ := run_R ops R_init
+  obtain ⟨q, evs, hrun, hacc, hR, hw, _⟩ := run_R ops R_init (by simpa [Spec.init, Spec.size] using hfit)
   have hsent : (Spec.init.run evs).sent = taken evs := by rw [run_sent]; rfl
-  refine ⟨q, evs, hrun, hacc, ?_, ?_, drain_R hR, ?_, ?_, ?_, ?_, ?_, ?_, ?_⟩
+  have hsz : (Spec.init.run evs).size ≤ (opsWritten ops).length := by
+    have := size_run_le hacc
+    rw [hw] at this
+    simpa [Spec.init, Spec.size] using this
+  have hsz' : (Spec.init.run evs).size ≤ usizeMax := by omega
+  refine ⟨q, evs, hrun, hacc, ?_, ?_, drain_R hR hsz', ?_, ?_, ?_, ?_, ?_, ?_, ?_⟩
   · rw [Q.len, hR.len_eq, hR.abs_eq]
   · intro he
     have : q.chunks = [] := by simpa [Q.isEmpty] using he
     simp [abs, this]
-  · intro b
-    exact ⟨write_abs q b hR.off, by simp [Q.write, Q.len]⟩
+  · intro b hb
+    obtain ⟨hwr, _⟩ := write_R b hR (by omega)
+    exact ⟨writeN q b, hwr, write_abs q b hR.off, by simp [writeN, Q.len]⟩
   · intro n
     obtain ⟨sl, hsl, _, _⟩ := asSlice_of_R hR
-    obtain ⟨q', sl', hsl', hq, _, hr, habs, _⟩ := consume_R (min n sl.length) hR
+    obtain ⟨q', sl', hsl', hq, _, hr, habs, _⟩ := consume_R (min n sl.length) hR hsz'
     have e : sl' = sl := by rw [hsl] at hsl'; exact (Option.some.inj hsl').symm
     subst e
     have ht : sl'.take (min n sl'.length) = sl'.take n := by
@@ -59,7 +68,7 @@ theorem C16_queue (ops : List Op) :
     · rw [← ht]; exact habs
     · rw [Q.len, hr.len_eq, hr.abs_eq]
   · intro n
-    obtain ⟨q', sl, _, hq, _, hr, habs, _⟩ := consume_R n hR
+    obtain ⟨q', sl, _, hq, _, hr, habs, _⟩ := consume_R n hR hsz'
     refine ⟨q', (sl.take n).length, hq, by simp; omega, ?_, by rw [Q.len, hr.len_eq, hr.abs_eq]⟩
     rw [habs]; simp
   · obtain ⟨q', hq, hr, habs⟩ := flush_R hR
@@ -76,66 +85,111 @@ theorem C16_queue (ops : List Op) :
     rw [hsent, ← hR.abs_eq] at this
     simpa [Spec.init] using this
 
-/-- **C16_delivery.** For every program of write/execute, flush, frames_drop and poll calls and *every* schedule
-of the environment inside each poll (short writes, EAGAIN, iterations without writability, writes queued by the
-loop itself, early exit): no panic; the trace is a run of the FIFO specification, i.e. the bytes handed to the
-tty (`taken`) are, call by call, prefixes of what was then pending; afterwards
-`bytes handed to the tty ++ bytes still queued` is the program's output in program order with only bytes removed
-by `frames_drop` missing (never duplicated or reordered), and it is *exactly* the program's output when no
-`frames_drop` occurred. -/
-theorem C16_delivery (ops : List TOp) :
-    ∃ q evs, trun? Q.new ops = some (q, evs) ∧ Spec.init.Accepts evs ∧
+/-- **C16_delivery.** For both kinds of terminal (`sizeEsc`: size taken from escape sequences, in which
+`frames_drop` re-queues the 10-byte size query — the library's own bytes, like those the poll loop queues on
+SIGWINCH — or from the ioctl), for every program of write/execute, flush, frames_drop and poll calls and
+*every* schedule of the environment inside each poll (short writes, EAGAIN, iterations without writability,
+writes queued by the loop itself, early exit), total output within `usize`: no panic; the trace is a run of
+the FIFO specification, i.e. the bytes handed to the tty (`taken`) are, call by call, prefixes of what was then
+pending; afterwards `bytes handed to the tty ++ bytes still queued` is the output (program payloads and library
+bytes, in call order) with only bytes removed by `frames_drop` missing (never duplicated or reordered), and it
+is *exactly* that output when no `frames_drop` occurred. -/
+theorem C16_delivery (sizeEsc : Bool) (ops : List TOp)
+    (hfit : (progWritten sizeEsc ops).length ≤ usizeMax) :
+    ∃ q evs, trun? sizeEsc Q.new ops = some (q, evs) ∧ Spec.init.Accepts evs ∧
       (Spec.init.run evs).sent = taken evs ∧ (Spec.init.run evs).buf = abs q ∧
       q.len = (abs q).length ∧
-      written evs = progWritten ops ∧
-      (taken evs ++ abs q).Sublist (progWritten ops) ∧
-      ((∀ op ∈ ops, isDrop op = false) → taken evs ++ abs q = progWritten ops) := by
-  obtain ⟨q, evs, hrun, hacc, hR⟩ := trun_sim ops R_init
+      written evs = progWritten sizeEsc ops ∧
+      (taken evs ++ abs q).Sublist (progWritten sizeEsc ops) ∧
+      ((∀ op ∈ ops, isDrop op = false) → taken evs ++ abs q = progWritten sizeEsc ops) := by
+  obtain ⟨q, evs, hrun, hacc, hR, hw, hnd⟩ :=
+    trun_sim sizeEsc ops R_init (by simpa [Spec.init, Spec.size] using hfit)
   have hsent : (Spec.init.run evs).sent = taken evs := by rw [run_sent]; rfl
-  obtain ⟨hw, hnd⟩ := trun_written ops hrun
   refine ⟨q, evs, hrun, hacc, hsent, hR.abs_eq.symm, by rw [Q.len, hR.len_eq, hR.abs_eq], hw, ?_, ?_⟩
   · have := conserve_sublist Spec.init evs hacc
     rw [hsent, ← hR.abs_eq, hw] at this
     simpa [Spec.init] using this
   · intro hall
-    have := conserve Spec.init evs hacc (hnd hall)
+    have hn : noDrop evs := hnd (by
+      rw [List.all_eq_true]
+      intro op hop
+      simp [hall op hop])
+    have := conserve Spec.init evs hacc hn
     rw [hsent, ← hR.abs_eq, hw] at this
     simpa [Spec.init] using this
 
-/-- **C16_drop.** In every reachable state of the terminal's queue `frames_drop` (= `clear_but_last`) does not
-panic, keeps the front chunk — the only one that can have been partly handed to the tty — together with the
-read offset, so that exactly the unsent rest of the front chunk remains readable; `len()` is exact afterwards;
-and the cut falls on a position at which the program called flush (or nothing is dropped): whole
-flush-delimited chunks that have not started transmission, nothing else. -/
-theorem C16_drop (ops : List TOp) :
-    ∃ q evs q', trun? Q.new ops = some (q, evs) ∧ q.clearButLast? = some q' ∧
+/-- **C16_drop.** In every reachable state of the terminal's queue `frames_drop` does not panic. Its cut
+(`clear_but_last`, state `q'`) keeps the front chunk — the only one that can have been partly handed to the
+tty — together with the read offset, so that exactly the unsent rest of the front chunk remains readable;
+`len()` is exact; and the cut falls on a position at which the program called flush (or nothing is dropped):
+whole flush-delimited chunks that have not started transmission, nothing else. In escape-sequence size mode
+the size query is then appended behind what was kept (state `q''`: it extends the kept chunk, which may be
+partly sent, or starts a chunk when the queue was empty); otherwise `q'' = q'`. -/
+theorem C16_drop (sizeEsc : Bool) (ops : List TOp)
+    (hfit : (progWritten sizeEsc ops).length + getTermSize.length ≤ usizeMax) :
+    ∃ q evs q' q'' evs', trun? sizeEsc Q.new ops = some (q, evs) ∧ q.clearButLast? = some q' ∧
       q'.chunks = q.chunks.take 1 ∧ q'.offset = q.offset ∧
       q.asSlice? = some (abs q') ∧
       q'.len = (abs q').length ∧
       (q'.len ∈ (Spec.init.run evs).marks ∨ q'.len = (Spec.init.run evs).buf.length) ∧
-      abs q' = ((Spec.init.run evs).buf).take q'.len := by
-  obtain ⟨q, evs, hrun, _, hR⟩ := trun_sim ops R_init
+      abs q' = ((Spec.init.run evs).buf).take q'.len ∧
+      framesDrop? sizeEsc q = some (q'', evs') ∧
+      q''.chunks = (if sizeEsc then appendLast q'.chunks getTermSize else q'.chunks) ∧
+      q''.offset = q'.offset ∧
+      abs q'' = abs q' ++ (if sizeEsc then getTermSize else []) ∧
+      q''.len = (abs q'').length := by
+  obtain ⟨q, evs, hrun, hacc, hR, hw, _⟩ :=
+    trun_sim sizeEsc ops R_init (by simp only [Spec.init, Spec.size, List.length_nil]; omega)
+  have hsz : (Spec.init.run evs).size ≤ (progWritten sizeEsc ops).length := by
+    have := size_run_le hacc
+    rw [hw] at this
+    simpa [Spec.init, Spec.size] using this
   obtain ⟨q', hq, hleg, hr, hch, hoff, hsl⟩ := clear_R hR
-  refine ⟨q, evs, q', hrun, hq, hch, hoff, hsl, by rw [Q.len, hr.len_eq, hr.abs_eq], hleg.1, ?_⟩
-  rw [hr.abs_eq]; rfl
+  have hsz2 := size_apply_le hleg
+  simp only [written, List.length_nil, Nat.add_zero] at hsz2
+  have hcut : abs q' = ((Spec.init.run evs).buf).take q'.len := by rw [hr.abs_eq]; rfl
+  cases sizeEsc with
+  | false =>
+    refine ⟨q, evs, q', q', [.drop q'.length], hrun, hq, hch, hoff, hsl, by rw [Q.len, hr.len_eq, hr.abs_eq],
+      hleg.1, hcut, by simp [framesDrop?, hq], by simp, rfl, by simp, by rw [Q.len, hr.len_eq, hr.abs_eq]⟩
+  | true =>
+    obtain ⟨hwr, hr2⟩ := write_R getTermSize hr (by omega)
+    refine ⟨q, evs, q', writeN q' getTermSize, [.drop q'.length, .write getTermSize], hrun, hq, hch, hoff, hsl,
+      by rw [Q.len, hr.len_eq, hr.abs_eq], hleg.1, hcut, by simp [framesDrop?, hq, hwr], by simp [writeN],
+      rfl, by simpa using write_abs q' getTermSize hr.off, by rw [Q.len, hr2.len_eq, hr2.abs_eq]⟩
 
-/-! ### concrete witnesses (the statements are not vacuous) -/
+/-! ### concrete witnesses (the statements and their hypotheses are not vacuous) -/
+
+/-- the byte-budget hypothesis is met by any realistic program, e.g. -/
+example : (progWritten true [.write [1, 2, 3], .flush, .drop, .poll [⟨some 1, [[9]]⟩]]).length + getTermSize.length
+    ≤ usizeMax := by decide
 
 /-- the pinned tree's witness: three frames, drop — `len()` is 3 (it used to stay 8), 3 bytes readable -/
 example :
     (Q.new.run? [.write [1, 2, 3], .flush, .write [4, 5, 6], .flush, .write [7, 8], .clear]).map
       (fun r => (r.1.len, abs r.1)) = some (3, [1, 2, 3]) := by decide
 
+/-- `consume(usize::MAX)` after a partial read (used to overflow in `offset + amt`): pops the front chunk -/
+example :
+    (Q.new.run? [.write [1, 2, 3], .read 1, .consume usizeMax, .write [4]]).map
+      (fun r => (r.1.len, abs r.1, r.1.offset)) = some (1, [4], 0) := by decide
+
 /-- a schedule with a short write, EAGAIN, a not-writable iteration and a drop of two whole frames while the
 first one is half sent: the tty got `1 2`, `3` is still queued, the later frames are gone -/
 example :
-    (trun? Q.new [.write [1, 2, 3], .flush, .write [4, 5], .poll [⟨some 2, []⟩, ⟨some 0, []⟩, ⟨none, []⟩],
+    (trun? false Q.new [.write [1, 2, 3], .flush, .write [4, 5], .poll [⟨some 2, []⟩, ⟨some 0, []⟩, ⟨none, []⟩],
         .write [6], .drop]).map (fun r => (taken r.2, abs r.1, r.1.chunks)) =
       some ([1, 2], [3], [[1, 2, 3]]) := by decide
 
+/-- the same in escape-sequence size mode: the size query follows the unsent rest of the kept frame, in the
+same chunk -/
+example :
+    (trun? true Q.new [.write [1, 2, 3], .flush, .write [4, 5], .poll [⟨some 2, []⟩], .write [6], .drop]).map
+      (fun r => (taken r.2, abs r.1, r.1.chunks.length)) = some ([1, 2], 3 :: getTermSize, 1) := by decide
+
 /-- a poll iteration that queues bytes itself (size query after SIGWINCH): they are sent after the older ones -/
 example :
-    (trun? Q.new [.write [1, 2], .poll [⟨some 1, [[9]]⟩, ⟨some 5, []⟩, ⟨some 5, []⟩]]).map
+    (trun? false Q.new [.write [1, 2], .poll [⟨some 1, [[9]]⟩, ⟨some 5, []⟩, ⟨some 5, []⟩]]).map
       (fun r => (taken r.2, abs r.1)) = some ([1, 2, 9], []) := by decide
 
 end SurfProofs.C16
